@@ -158,7 +158,7 @@ func c14ErrClass(err error) string {
 func c14GoVerify(s *c14Scn) string {
 	var err error
 	panicked, msg := fw.Recover(func() {
-		err = s.P.Verify(s.Height, time.Unix(s.Median, 0), s.SigH, s.Sigs, s.Pres)
+		err = s.P.Verify(s.Height, time.Unix(s.Median, s.MedianNs), s.SigH, s.Sigs, s.Pres)
 	})
 	if panicked {
 		return "panic:" + msg
@@ -359,7 +359,7 @@ func (r *c14Run) flush() {
 			bad(key, fmt.Sprintf("Verify says %s but the policy's meaning says %s (family %s, policy %s)", goOut[i], want[i], s.Tag, c14Trunc(c14Show(s.P), 200)))
 		}
 		// complexity limits must reject quickly rather than hang
-		if durs[i] > int64(5*time.Second) {
+		if durs[i] > int64(20*time.Second) {
 			bad("c14-limit-not-enforced", fmt.Sprintf("Verify took %v on a %s policy", time.Duration(durs[i]), s.Tag))
 		}
 	}
@@ -495,6 +495,24 @@ func c14Has(p types.SpendPolicy, kind string) bool {
 	return false
 }
 
+// the height and time locks occurring in the revealed part of a policy
+func c14Locks(p types.SpendPolicy) (hs []uint64, ts []int64) {
+	switch t := p.Type.(type) {
+	case types.PolicyTypeAbove:
+		hs = append(hs, uint64(t))
+	case types.PolicyTypeAfter:
+		ts = append(ts, time.Time(t).Unix())
+	case types.PolicyTypeUnlockConditions:
+		hs = append(hs, t.Timelock)
+	case types.PolicyTypeThreshold:
+		for _, c := range t.Of {
+			h2, t2 := c14Locks(c)
+			hs, ts = append(hs, h2...), append(ts, t2...)
+		}
+	}
+	return
+}
+
 func c14FlipSig(s types.Signature, bit int) types.Signature {
 	s[(bit/8)%64] ^= 1 << (bit % 8)
 	return s
@@ -530,6 +548,14 @@ func (r *c14Run) scenariosFor(p types.SpendPolicy, fam string, full bool) {
 			}
 			s := base("lock", focus)
 			s.Height, s.Median = h, m
+			r.add(s)
+		}
+	}
+	if c14Has(p, "after") {
+		// sub-second median timestamps: the model is second-resolution, so Go vs oracle only
+		for _, mn := range [][2]int64{{c14T0, 1}, {c14T0, 999999999}, {c14T0 - 1, 999999999}} {
+			s := base("lock-subsecond", "after")
+			s.Median, s.MedianNs, s.NoModel = mn[0], mn[1], true
 			r.add(s)
 		}
 	}
@@ -777,7 +803,7 @@ func (r *c14Run) ucFamily() {
 	genK(nil, 3)
 	total := len(keyLists) * len(reqs) * len(sigSeqs)
 	// quick: deterministic subsample (stride by seeded hash); thorough: everything
-	keep := c.Budget(12000, total)
+	keep := c.Budget(25000, total)
 	r.res.Note("uc family: %d key lists x %d required counts x %d signature sequences = %d cases; running %d", len(keyLists), len(reqs), len(sigSeqs), total, min(keep, total))
 	idx := 0
 	for _, kl := range keyLists {
@@ -925,7 +951,7 @@ func (r *c14Run) randomFamily() {
 	c := r.c
 	g := c14Rand{r}
 	f := r.f
-	n := c.Budget(6000, 100000)
+	n := c.Budget(10000, 100000)
 	for i := 0; i < n; i++ {
 		var p types.SpendPolicy
 		fam := "random-sat"
@@ -999,11 +1025,19 @@ func (r *c14Run) randomFamily() {
 				a, b := c.Rng.Intn(len(s.Pres)), c.Rng.Intn(len(s.Pres))
 				s.Pres[a], s.Pres[b] = s.Pres[b], s.Pres[a]
 				s.Tag, s.Focus = fam+"/pre-reordered", "hash"
-			case 8:
-				s.Height = c14H0 - uint64(c.Rng.Intn(2000))
+			case 8: // lock-1 / lock / lock+1 around a height lock that occurs in the policy
+				hs, _ := c14Locks(p)
+				if len(hs) == 0 {
+					continue
+				}
+				s.Height = hs[c.Rng.Intn(len(hs))] + uint64(c.Rng.Intn(3)) - 1
 				s.Tag, s.Focus = fam+"/lock", "above"
 			case 9:
-				s.Median = c14T0 + 1 - int64(c.Rng.Intn(200000))
+				_, ts := c14Locks(p)
+				if len(ts) == 0 {
+					continue
+				}
+				s.Median = ts[c.Rng.Intn(len(ts))] + int64(c.Rng.Intn(3)) - 1
 				s.Tag, s.Focus = fam+"/lock", "after"
 			}
 			r.add(&s)
@@ -1125,7 +1159,7 @@ func (r *c14Run) limitFamily() {
 		})
 		r.res.Eval(fmt.Sprintf("decode-depth %d", d), true)
 		r.res.Count("limit:decode-depth")
-		if panicked || (d >= 40 && err == nil) || time.Since(t0) > 5*time.Second {
+		if panicked || (d >= 1000 && err == nil) || time.Since(t0) > 5*time.Second {
 			r.res.Violate(fw.Violation{Key: "c14-limit-not-enforced", What: fmt.Sprintf("decoding a policy nested %d deep: err=%v panic=%v %s after %v", d, err, panicked, msg, time.Since(t0)),
 				Replay: map[string]any{"kind": "decode-depth", "depth": d}})
 		}
@@ -1266,7 +1300,7 @@ func runC14(c *fw.Ctx) {
 	}
 	res.CountN("templates:depth<=1,breadth<=3", len(t1))
 	t2 := c14Templates(2, 2)
-	keep := c.Budget(5000, len(t2))
+	keep := c.Budget(10000, len(t2))
 	nd2 := 0
 	for _, t := range t2 {
 		if t.kind != 't' {
@@ -1299,7 +1333,7 @@ func runC14(c *fw.Ctx) {
 	res.Exhaustive = keep >= len(t2)
 	// depth 2 / breadth 3: sampled (the full set has ~2e9 trees)
 	d1 := c14Templates(1, 3)
-	for i := 0; i < c.Budget(1500, 150000); i++ {
+	for i := 0; i < c.Budget(4000, 150000); i++ {
 		kids := make([]c14T, 3)
 		for j := range kids {
 			kids[j] = d1[c.Rng.Intn(len(d1))]
